@@ -23,7 +23,7 @@ Proof. exact items_cover_active_once. Qed.
 Print Assumptions C12_items_cover_active_once.
 
 Example C12_items_cover_example :
-  let vs := [mkVar 1 [false; true; true] [] [1; 1; 1]%Z []; mkVar 2 [true] [] [1%Z] []; mkVar 1 [true; false] [] [1; 1]%Z []] in
+  let vs := [mkVar 1 [false; true; true] [] [1; 1; 1]%Z [] false; mkVar 2 [true] [] [1%Z] [] false; mkVar 1 [true; false] [] [1; 1]%Z [] false] in
   build_items (active_vars 1 vs) = [(0, 0); (0, 1); (2, 0)] /\
   flat_map (item_evaluates vs) (build_items (active_vars 1 vs)) = [(0, 1); (0, 2); (2, 0)].
 Proof. vm_compute. split; reflexivity. Qed.
@@ -87,7 +87,7 @@ Proof. exact serial_equals_parallel. Qed.
 Print Assumptions C12_serial_equals_parallel.
 
 Example C12_serial_equals_parallel_example :
-  let c := mkCfg [mkVar 1 [true; true; true] [false; true; true] [1; 1; 1]%Z []; mkVar 1 [true] [] [2%Z] []]
+  let c := mkCfg [mkVar 1 [true; true; true] [false; true; true] [1; 1; 1]%Z [] false; mkVar 1 [true] [] [2%Z] [] false]
                  [mkBias 1 [0; 1] 2 [0; 0]%Z; mkBias 2 [1] 1 [1%Z]] true false [(1, 3%Z)] in
   step_error c 0 = false /\ n_cvc_items c 0 = 3 /\ n_bias_items c 0 = 3 /\
   Permutation [2; 0; 1] (seq 0 3) /\ Merge (deal 2 (fun k => k mod 2) [2; 0; 1]) [2; 1; 0].
